@@ -30,18 +30,29 @@ def c01_api(r, idx):
     extra_files, dep_protos = [], []
     k = idx % 6
     if k in (1, 4):
-        # a file in a proto sub-package of the target package
-        sub = File(f"{api.dir}/admin/admin.proto", api.package + ".admin", deps=list(apigen.STD_DEPS) + [api.main.proto.name])
+        # a file in a proto sub-package of the target package, with the SAME base name as the main file; the main file uses its type
+        base = os.path.basename(api.main.proto.name)
+        sub = File(f"{api.dir}/admin/{base}", api.package + ".admin", deps=list(apigen.STD_DEPS))
         m = sub.message("AdminNote"); m.field("text", 1, "string")
-        first = api.main.proto.message_type[0]
-        m.field("subject", 2, f".{api.package}.{first.name}")
         rq = sub.message("GetAdminNoteRequest"); rq.field("name", 1, "string")
         if k == 4:
             s = sub.service("AdminService", host=api.host)
             s.rpc("GetAdminNote", rq.fqn, m.fqn, http=("get", "/v1/{name=adminNotes/*}"), sigs=["name"])
             feats.append("sub-package-service")
+        api.main.dep(sub.proto.name)
+        first = api.main.proto.message_type[0]
+        f = first.field.add(); f.name, f.number, f.label, f.type, f.type_name = "admin_note", 74, 1, 11, m.fqn
         extra_files.append(sub)
         feats.append("sub-package")
+    if k in (0, 3):
+        # a target file named like a dependency file it uses (status.proto using google/rpc/status.proto)
+        st = File(f"{api.dir}/status.proto", api.package, deps=["google/rpc/status.proto"])
+        rep = st.message("StatusReport"); rep.field("status", 1, ".google.rpc.Status").field("note", 2, "string")
+        api.main.dep(st.proto.name)
+        first = api.main.proto.message_type[0]
+        f = first.field.add(); f.name, f.number, f.label, f.type, f.type_name = "status_report", 75, 1, 11, rep.fqn
+        extra_files.append(st)
+        feats.append("same-basename-dependency")
     if k in (2, 4, 5):
         dep = File("acme/common/types.proto", "acme.common")
         mo = dep.message("Money"); mo.field("units", 1, "int64").field("currency", 2, "string")
